@@ -361,7 +361,8 @@ def _q(name, kernel, build, mode="int", secs=300, group=None, weight=1.0, canary
         return kernel(inp, chk)
 
     pre = (lambda: _set_bv(width)) if mode == "bv" else None
-    return Query(name=name, fn=fn, params=dict(params or {}, kernel=kernel.__name__), mode=mode, max_secs=secs, group=group or kernel.__name__, weight=weight, pre=pre, canary=bool(canary), max_paths=5000)
+    return Query(name=name, fn=fn, params=dict(params or {}, kernel=kernel.__name__), mode=mode, max_secs=secs, group=group or kernel.__name__, weight=weight, pre=pre, canary=bool(canary), max_paths=5000,
+                 solver_timeout_ms=int(secs * 1000 * 0.6) if mode == "bv" else None)
 
 
 def _set_bv(w):
@@ -403,7 +404,7 @@ def queries(tier, seed):
 
     # --- doubles
     for f in (1, 10, 100, 1000):
-        nsplit = 4 if f != 1 else 1
+        nsplit = {1: 1, 10: 4, 100: 8, 1000: 16}[f]
         step = 65536 // nsplit
         for part in range(nsplit):
             lo, hi = part * step, (part + 1) * step - 1
